@@ -33,6 +33,10 @@ def make_device(kind, variant):
         et_device_info(d, serial=b'9010KETT000W0000' if kind == 'ET745' else b'9010KETU000W0000', rated=10000)
         d.rf.set(35184, 2)
         d.rf.set(47000, 3)
+        # clocks: inverter 0 reports a valid date and time, inverter 1 an undecodable one (all zeros: month 0)
+        clock = bytes([26, 10, 2, 12, 34, 56]) if variant == 0 else bytes(6)
+        d.rf.setbytes(35100, clock)
+        d.rf.setbytes(45200, clock)
         d.rf.setbytes(47515, ECO_V1_BASE[1 + variant])
         d.rf.setbytes(47547, [SCHED_BASE[1], SCHED_BASE[2], SCHED_BASE[4], SCHED_BASE[3]][(2 * variant + (kind == 'ET745')) % 4])
         for k in (2, 3, 4):
@@ -54,6 +58,9 @@ def make_device(kind, variant):
     if kind.startswith('DT'):
         d = ModbusDevice(0x7F, fill=(lambda a: (a * 13 + 5) % 3000) if variant == 0 else (lambda a: (a * 29 + 77) % 4000))
         dt_device_info(d, serial=b'9003KDSN000W0000' if kind == 'DT1' else b'9010KDTU000W0000')
+        clock = bytes([26, 10, 2, 12, 34, 56]) if variant == 0 else bytes(6)
+        d.rf.setbytes(30100, clock)
+        d.rf.setbytes(40313, clock)
         if kind == 'DTrej':
             d.refused = [(40362, 40362)]
         return 'DT', d
